@@ -262,6 +262,78 @@ def replay(cases, workdir, env_extra=None, jobs=12, timeout_ms=10000, name="repl
     return [by_id[c["id"]] for c in cases]
 
 
+def module_variant(case, root):
+    """The same program as ONE MODULE FILE required from the top level.  This is how the `steel`
+    command runs a file (`(require "file")`), and it is a different compilation mode: inside a module
+    the names of builtins are resolved to #%prim.* at expansion time, which is what enables the
+    specialised opcodes (ADD, LT, CAR, ... and the arity-free global calls) and the JIT's typed
+    helpers; top-level Engine::run code calls the same builtins through global variables.
+    Applicable when only the last step may fail.  Returns None otherwise."""
+    steps = case["steps"]
+    if any(s.get("op") for s in steps) or any(s.get("class", "ok") != "ok" for s in steps[:-1]):
+        return None
+    os.makedirs(root, exist_ok=True)
+    fid = re.sub(r"[^A-Za-z0-9_.-]", "_", case["id"])
+    path = os.path.join(root, fid + ".scm")
+    src = "\n".join(s["src"] for s in steps).replace("@@", "")
+    with open(path, "w") as f:
+        f.write(src + "\n")
+    step = {"src": f'(require "{path}")', "class": steps[-1].get("class", "ok")}
+    if all("emit" in s for s in steps):
+        step["emit"] = [e for s in steps for e in s["emit"]]
+    out = dict(case, id=case["id"] + "@mod", steps=[step], module_file=path, module_src=src,
+               tag=(case.get("tag", "") + "|module"))
+    return out
+
+
+def replay_as_modules(cases, workdir, root, env_extra=None, jobs=12, timeout_ms=20000, name="mods", batch=50,
+                      binary="replay", single_ids=()):
+    """Replay every case as a module file (see module_variant).  Cases that expect no failure are
+    packed `batch` to a module file (a require costs ~30 ms, a form ~1 ms); a batch that does not
+    behave as expected is replayed again one module per case, so verdicts are always per case.
+    Returns (module cases, verdicts), aligned; cases for which no module variant exists are left out."""
+    # `single_ids`: cases already known to misbehave (they would only take their batch down with them)
+    okc = [c for c in cases if c["id"] not in single_ids
+           and all(s.get("class", "ok") == "ok" and "emit" in s and not s.get("op") for s in c["steps"])]
+    okids = {c["id"] for c in okc}
+    single = [c for c in cases if c["id"] not in okids]
+    groups = [okc[i:i + batch] for i in range(0, len(okc), batch)]
+    bcases = []
+    for gi, g in enumerate(groups):
+        steps = []
+        for c in g:
+            u = "_" + re.sub(r"[^A-Za-z0-9]", "_", c["id"])
+            steps += [dict(st, src=st["src"].replace("@@", u)) for st in c["steps"]]
+        bcases.append(module_variant({"id": f"{name}-batch{gi}", "fresh": False, "steps": steps}, root))
+    bv = replay(bcases, workdir, env_extra=env_extra, jobs=jobs, timeout_ms=timeout_ms, name=name + ".batch", binary=binary) if bcases else []
+    again = list(single)
+    out = {}
+    for g, v in zip(groups, bv):
+        if v["pass"]:
+            for c in g:
+                out[c["id"]] = {"id": c["id"] + "@mod", "tag": c.get("tag", "") + "|module", "pass": True, "why": "",
+                                "step": 0, "got": [], "batched": True}
+        else:
+            again += g
+    mods = {}
+    for c in again:
+        m = module_variant(c, root)
+        if m:
+            mods[c["id"]] = m
+    if mods:
+        vs = replay(list(mods.values()), workdir, env_extra=env_extra, jobs=jobs, timeout_ms=timeout_ms, name=name + ".single", binary=binary)
+        for cid, v in zip(mods.keys(), vs):
+            out[cid] = v
+    rc, rv = [], []
+    for c in cases:
+        if c["id"] in out:
+            m = mods.get(c["id"]) or dict(c, id=c["id"] + "@mod", tag=c.get("tag", "") + "|module",
+                                          steps=[dict(st, src=st["src"].replace("@@", "")) for st in c["steps"]], batched=True)
+            rc.append(m)
+            rv.append(out[c["id"]])
+    return rc, rv
+
+
 # --------------------------------------------------------------------------- findings
 
 def load_findings():
@@ -282,6 +354,10 @@ def replay_file(prop, path, env_extra=None, binary="replay"):
     if "steps" not in case:
         raise ToolError(f"{path} is not a replayable engine case")
     work = os.path.join(WORK, prop, "replay1")
+    if case.get("module_file"):
+        os.makedirs(os.path.dirname(case["module_file"]), exist_ok=True)
+        with open(case["module_file"], "w") as f:
+            f.write(case["module_src"] + "\n")
     v = replay([case], work, env_extra=env_extra or obj.get("env"), jobs=1, name="replay1", binary=binary)[0]
     print(json.dumps(v, indent=1))
     if not v["pass"]:
@@ -294,6 +370,8 @@ def match_finding(prop, case, verdict, findings):
     """A failing case is attributed to a *known* finding only when the finding's
     specific signature matches (input text and observed symptom)."""
     text = "\n".join(s.get("src", "") for s in case.get("steps", [])) if case else ""
+    if case and case.get("module_src"):
+        text += "\n" + case["module_src"]
     text += "\n#tag:" + (case.get("tag", "") if case else "")
     for f in findings:
         if f.get("status") != "known" or prop not in f.get("properties", [f.get("property")]):
